@@ -218,6 +218,25 @@ Section Examples.
     apply not_expressible_cases. right. right. left.
     exists KR2, 1%Z, 3%Z, [5; 5]%Z, [[1; 2]; [2; 3]]%Z, [0; 1; 0]%Z, None. split; [left; reflexivity | reflexivity].
   Qed.
+  (* REFUTED: "a refused export writes nothing".  An R^2 odometry edge after an SE(2) one: to_g2o raises
+     NotImplementedError, but the file has been opened and holds the vertices and the first edge -- a loadable,
+     truncated graph.  (The ValueErrors are raised before the file is opened.) *)
+  Definition ex_partial : graph Z :=
+    mkG [] [mkV 0%Z KSE2 [0; 0; 0]%Z; mkV 1%Z KSE2 [1; 0; 0]%Z; mkV 2%Z KR2 [0; 0]%Z; mkV 3%Z KR2 [1; 1]%Z]
+        [EOdo KSE2 0%Z 1%Z [1; 0; 0]%Z [[1; 0; 0]; [0; 1; 0]; [0; 0; 1]]%Z;
+         EOdo KR2 2%Z 3%Z [1; 1]%Z [[1; 0]; [0; 1]]%Z].
+  Lemma refusal_leaves_no_file_refuted :
+    exists g : graph Z,
+      wf Z g /\
+      (forall print print_id, export Z print print_id (Z.eqb 0) Z.eqb g = Error ENotImplemented) /\
+      (forall print print_id, exists ls, export_file Z print print_id (Z.eqb 0) Z.eqb g = Some ls /\ List.length ls = 5).
+  Proof.
+    exists ex_partial. split; [|split].
+    - unfold wf, ex_partial; simpl. split; [constructor|]. split; [constructor|]. split; [repeat constructor|].
+      split; [|reflexivity]. repeat (constructor; [simpl; repeat split; reflexivity|]). constructor.
+    - intros. reflexivity.
+    - intros. eexists. split; [reflexivity | reflexivity].
+  Qed.
   Example ex_seps : seps_ok [("12", "  " ++ String (ascii_of_nat 9) ""); ("3.5", " "); ("-1e3", String (ascii_of_nat 13) nl)]%string.
   Proof. simpl. repeat split; try discriminate; reflexivity. Qed.
 End Examples.
